@@ -279,6 +279,7 @@ type HeaderOpts struct {
 	Alg          *int64 // alg value to place in protected (nil: none)
 	AlgSpell     bool   // spell alg value as cose.Algorithm sometimes
 	NoRegistered bool
+	NoCty        bool // never generate content type (label 3): hash envelopes forbid it
 }
 
 // MediaType draws a conforming type/subtype string.
@@ -372,7 +373,7 @@ func Headers(t *rapid.T, o HeaderOpts) (prot, unprot rc.Val) {
 		m, tk := bucket("kid")
 		add(m, tk, lab(4), rc.Bytes(Blob(t, "kid", BoundaryLen(t, "kidlen", false))))
 	}
-	if pick("cty") {
+	if !o.NoCty && pick("cty") {
 		m, tk := bucket("cty")
 		add(m, tk, lab(3), ctyValue(t, o.Val))
 	}
